@@ -14,7 +14,7 @@ open Np Drv Weights
     vfw <scaled> T F B <cps> <re> <im> <w> <wc> <xs> <fs>   -> weights|unscaled|re|im (mirror)
     vfwspec …same…                              -> same by the spec
     kf32 <div> <bits32 triples a1,a2,w,…>       -> bits32 of kernelF32
-    kq <div> <f64 triples>                      -> kernelImpl;kernelSpec;infFamily flags
+    kq <div> <f64 triples>                      -> kernelImpl;kernelSpec;flags (all 0 since the repair of C15-inf-autocorr)
     interp <xs> <fs> <x…>                       -> interpS
     exc <nAccs|-> <dump p/q> <cbfdump p/q> <w…> -> A;d;excision values | E:ValueError
     avg T F B timeav chanav flagav <re> <im> <w> <flags>  -> nT,nC,nB|re|im|w|flags (mirror)
@@ -181,7 +181,7 @@ def step (line : String) : String :=
       let t := triples l
       let a := t.map fun (a, b, c) => kernelImpl badWeightRat dv a b c
       let s := t.map fun (a, b, c) => kernelSpec badWeightRat dv a b c
-      let fam := t.map fun (a, b, _) => if infFamily dv a b then '1' else '0'
+      let fam := t.map fun (_ : Scalar Rat × Scalar Rat × Scalar Rat) => '0'   -- (no deviating family any more)
       s!"{showScalars a};{showScalars s};{String.ofList fam}"
     | _, _ => "bad-op"
   | ["interp", xs, fs, x] =>
